@@ -24,6 +24,7 @@ RULE = (
     "fault) run. Non-trivial = every fault run (a fault-free control run per configuration is trivial); distinct by "
     "(configuration, fault)."
     ' Round 5: bad objects also as property key, chart key, extra component and note data.'
+    " Round 6: caller's codec error handler (errors='replace'), a subclass of CancelMutation."
 )
 EXHAUSTIVE_PART = "per base configuration: all fault points of the classes body-exception, unserializable, unencodable, k-th filesystem call and LINE failpoints in the loading half and in the save sequence"
 ASSUMPTIONS = ["faults occur only at the enumerated points", "MemoryFS/NativeOSFS subclasses behave like their parents"]
